@@ -6,6 +6,7 @@ import (
 	"github.com/go-kid/ioc/syslog"
 	"github.com/go-kid/ioc/util/list"
 	"github.com/go-kid/ioc/util/sync2"
+	"github.com/pkg/errors"
 )
 
 type defaultSingletonComponentRegistry struct {
@@ -76,6 +77,11 @@ func (r *defaultSingletonComponentRegistry) GetSingleton(name string, allowEarly
 func (r *defaultSingletonComponentRegistry) GetSingletonOrCreateByFactory(name string, factory container.SingletonFactory) (*component_definition.Meta, error) {
 	if singleton, loaded := r.singletonObjects.Load(name); loaded {
 		return singleton, nil
+	}
+	if r.singletonCurrentlyInCreation.Exists(name) {
+		//a creation of this name is under way and offers no early reference (yet): creating it a
+		//second time would initialize and publish the singleton twice
+		return nil, errors.Errorf("singleton '%s' is currently in creation: unresolvable circular reference", name)
 	}
 	r.logger().Tracef("singleton '%s' currently is new, start creating", name)
 	r.singletonCurrentlyInCreation.Put(name)
